@@ -12,6 +12,8 @@ import Tickit.Driver.Common
     suspend        tickit_term_pause then tickit_term_resume (`Model/TermSuspend.lean`); the logical pen is unchanged, so the
                    terminal — after the bytes of pause (which reset the rendering attributes) and of resume — must again render
                    with it.  Configuration `g`: the harness's driver stands for the xterm driver, whose `pause` writes `ESC [ m`.
+    print <word>   tickit_term_printf(tt, "%s", word): the text goes to the terminal as it is (x: `b=` its bytes; g: `t=` what the
+                   driver's `print` was handed); not a pen request — the rendering attributes must stay what the logical pen asks for.
   Model observation = what harness/sgr.c prints.  Specification verdict: the SGR interpreter of
   `Model/Sgr.lean` is run on the bytes the *implementation* emitted (configuration `x`), or on the
   bytes the modelled xterm encoder produces from the (delta, final) pens the *implementation* handed
@@ -250,6 +252,24 @@ def suspendOp (st : DState) (impl : String) : DState × String × String :=
       | none => (st.vt, crash)
     ({ st with vt := vt' }, mobs, sv)
 
+/-- `print <word>`: text between pen requests. -/
+def printOp (st : DState) (word : String) (impl : String) : DState × String × String :=
+  let text := word.toUTF8.toList.map (·.toNat)
+  if st.mode = "x" then
+    let mobs := if st.dead then "ub after-overflow" else s!"b={bytesHexN text} pen={showPen st.cache}"
+    let (vt', sv) : VT × String :=
+      match (field? (toks impl) "b").bind hexBytes? with
+      | some bs =>
+        let bytes := bs.map (·.toNat)
+        let vt' := run bytes st.vt
+        let s := specAfter st vt' st.logical bytes false
+        (vt', if s = "" then "" else "after printing text: " ++ s)
+      | none => (st.vt, if impl.startsWith "CRASH" then s!"the implementation aborted under the sanitizers ({impl})" else "")
+    ({ st with vt := vt' }, mobs, sv)
+  else
+    (st, s!"t={bytesHexN text} pen={showPen st.cache}",
+      if impl.startsWith "CRASH" then s!"the implementation aborted under the sanitizers ({impl})" else "")
+
 def stepBase (st : DState) (ts : List String) (impl : String) : DState × String × String :=
   match ts with
   | ["new", "x", rgb8, colon, how] =>
@@ -282,6 +302,8 @@ def stepBase (st : DState) (ts : List String) (impl : String) : DState × String
     else (st, "bad-op", "")
   | ["suspend"] =>
     if st.mode ≠ "x" ∧ st.mode ≠ "g" then (st, "bad-op", "") else suspendOp st impl
+  | ["print", word] =>
+    if st.mode ≠ "x" ∧ st.mode ≠ "g" then (st, "bad-op", "") else printOp st word impl
   | [opname, pen] =>
     if st.mode ≠ "x" ∧ st.mode ≠ "g" then (st, "bad-op", "") else
     match opname, parsePen pen with
